@@ -10,20 +10,24 @@
 (* One initial state per case; the lemma is evaluated with its single successor.*)
 EXTENDS MsgSign
 
-CONSTANTS Mode, ESet, DSet, RMax
+CONSTANTS Mode, ESet, DSet, RMax, SSet
 VARIABLES a, b, c, ph, holds
 vars == <<a, b, c, ph, holds>>
 
 EAll == 1..(N + 2)
 EFew == {1, 2, N - 1, N, N + 1}
 DAll == Scalars
+SAll == 0..(N + 1)
+SFew == {0, 1, 2, (N - 1) \div 2, N - 2, N - 1, N, N + 1}
+ETwo == {3, N + 1}
+EOne == {N + 3}
 DFew == {1, 2, 3, (N - 1) \div 2, (N + 1) \div 2, N - 2, N - 1}
 
 ASSUME CurveOk == Cyclic /\ InvOk /\ P % 4 = 3 /\ PointsForXOk
 
 Init == /\ ph = 0 /\ holds = TRUE
         /\ IF Mode = "sign" THEN a \in DSet /\ b \in ESet /\ c \in Scalars
-           ELSE a \in ESet /\ b \in 0..RMax /\ c \in 0..(N + 1)
+           ELSE a \in ESet /\ b \in 0..RMax /\ c \in SSet
 
 \* ------------------------------------------------------------ Mode = "sign": a = d, b = e, c = k
 \* (values are bound through singleton sets: TLC evaluates a bound variable once, a LET definition at every use)
